@@ -4,8 +4,10 @@ from . import kernels as K
 
 ID = "C06"
 META = {
-    "bounds": "Kani (bit-precise, real parser incl. its unsafe block): every valid-UTF-8 byte string of length <= 7 (quick) / <= 8 (thorough), every ASCII string of "
-              "length 9..12 (thorough), exponent shapes of length 13..16, against an independent reference recogniser/evaluator; SWAR helpers for all u64. "
+    "bounds": "Kani (bit-precise, real fpdec_core::str_to_dec incl. its unsafe block, literal level: coefficient and exponent): every valid-UTF-8 byte string of "
+              "length <= 5 (quick) / <= 8 (thorough), every ASCII string of length 9..12 and exponent shapes of length 13..16 (thorough; harnesses that do not finish within "
+              "their cap end the check inconclusive), against an independent reference recogniser/evaluator; SWAR helpers for all u64; "
+              "mir2smt: Decimal::from_str's exponent folding for every (coefficient, exponent) pair. "
               "mir2smt (slice model, digits symbolic, structure enumerated): canonical shapes [-]a digits[.b digits] with a 1..=39, b 0..=18; mantissas of 30..=41 "
               "digits at every dot position with leading zeros; over-long mantissas of 42..=48 (quick) / 42..=80 (thorough) digits; mantissas with exponents "
               "(values -40..=40, up to 3 leading zeros)",
@@ -14,9 +16,9 @@ META = {
     "assumptions": ["builtin models listed in coverage.builtin_models (byte-slice model: first/len/get_unchecked/read_unaligned with explicit bounds assertions)",
                     "contracts chunk_contains_8_digits / chunk_to_u64 (obligation: the two Kani SWAR harnesses of this check)", "CBMC/Kani semantics for the harnesses"],
 }
-KANI_QUICK = ["chunk_contains_8_digits_all", "chunk_to_u64_all"] + ["all_strings_len%d" % n for n in range(0, 8)] + ["exponent_strings_len13"]
-KANI_THOROUGH = KANI_QUICK + ["all_strings_len8", "ascii_strings_len9", "ascii_strings_len10", "ascii_strings_len11", "ascii_strings_len12",
-                              "exponent_strings_len14", "exponent_strings_len16"]
+KANI_QUICK = ["chunk_contains_8_digits_all", "chunk_to_u64_all"] + ["all_strings_len%d" % n for n in range(0, 6)]
+KANI_THOROUGH = KANI_QUICK + ["all_strings_len6", "all_strings_len7", "all_strings_len8", "ascii_strings_len9", "ascii_strings_len10", "ascii_strings_len11",
+                              "ascii_strings_len12", "exponent_strings_len13", "exponent_strings_len14", "exponent_strings_len16"]
 EXPS = ["", "e0", "e5", "E-3", "e+12", "e-18", "e-19", "e38", "e39", "e-40", "E40", "e005", "e-0018"]
 
 
